@@ -147,6 +147,8 @@ def enc_auth(a):
 
 def enc_op(m):
     t = m["t"]
+    if t == "RawOp":  # a protocolOp this library does not implement (modify, add, delete, compare, abandon, intermediate ...)
+        return ber.tlv(APPLICATION, m.get("constructed", True), m["tag"], bytes.fromhex(m.get("body", "")))
     tag = OP_TAG[t]
     if t == "BindRequest":
         body = ber.integer(m["version"]) + ber.octets(_s(m["name"])) + enc_auth(m["auth"])
